@@ -31,7 +31,7 @@ type c14In struct {
 	Dirs0 []B        `json:"dirs0"`
 	FsIdx *int       `json:"fsIdx"`
 	FsOp  string     `json:"fsOp"`
-	Out   string     `json:"out"` // "", "error", "short"
+	Out   string     `json:"out"` // "", "error", "errorfull", "short"
 }
 type c14Obs struct {
 	Exit   int    `json:"exit"`
@@ -46,6 +46,12 @@ func (errReader) Read([]byte) (int, error) { return 0, errors.New("injected read
 type errWriter struct{}
 
 func (errWriter) Write([]byte) (int, error) { return 0, errors.New("injected write failure") }
+
+// errFullWriter fails too, but reports every byte as written (what a wrapped or buffered writer
+// may do): the error counts, not the count.
+type errFullWriter struct{}
+
+func (errFullWriter) Write(p []byte) (int, error) { return len(p), errors.New("injected write failure") }
 
 // shortWriter passes a strict prefix to the real stdout and reports the short count without error.
 type shortWriter struct{}
@@ -141,6 +147,8 @@ func pluginMain() {
 	switch in.Out {
 	case "error":
 		opts = append(opts, pgs.ProtocOutput(errWriter{}))
+	case "errorfull":
+		opts = append(opts, pgs.ProtocOutput(errFullWriter{}))
 	case "short":
 		opts = append(opts, pgs.ProtocOutput(shortWriter{}))
 	}
@@ -259,6 +267,8 @@ func (c14Engine) Gen(g *Gen) {
 		{mk("custom", "c1", "1"), mk("file", "f.go", "F"), mk("custom", "d/c2", "2"), mk("err", "", "soft")},
 		{mk("file", "a", "A"), mk("file", "b", "B")},
 		{mk("err", "", "soft"), mk("file", "a", "A"), mk("custom", "pre", "new")},
+		{mk("custom", "only/custom", "C")}, // the response is empty (zero bytes): a failing write still fails
+		{},
 	}
 	{
 		ow := mk("custom", "pre", "over")
@@ -269,6 +279,19 @@ func (c14Engine) Gen(g *Gen) {
 	emit := func(in c14In) {
 		if in.Arts == nil {
 			in.Arts = []artJ{}
+		}
+		if in.Out == "short" {
+			// a short write of an empty response (no generator artifact at all) writes all zero
+			// bytes of it: not a fault
+			empty := true
+			for _, a := range in.Arts {
+				if a.K != "custom" {
+					empty = false
+				}
+			}
+			if empty {
+				in.Out = "errorfull"
+			}
 		}
 		if in.Procs == nil {
 			in.Procs = []procJ{}
@@ -310,7 +333,7 @@ func (c14Engine) Gen(g *Gen) {
 		for _, inp := range []string{"readError", "garbage", "partial", "noTargets"} {
 			emit(c14In{Arts: run, Input: inp})
 		}
-		for _, out := range []string{"error", "short"} {
+		for _, out := range []string{"error", "errorfull", "short"} {
 			emit(c14In{Arts: run, Out: out})
 		}
 		// every bad artifact at every index
@@ -363,7 +386,7 @@ func (c14Engine) Gen(g *Gen) {
 			in.FsIdx, in.FsOp = &k, pick(g.Rng, []string{"mkdir", "stat", "open", "write", "close", "short"})
 		}
 		if g.Rng.Intn(4) == 0 {
-			in.Out = pick(g.Rng, []string{"error", "short"})
+			in.Out = pick(g.Rng, []string{"error", "errorfull", "short"})
 		}
 		if g.Rng.Intn(10) == 0 {
 			in.Input = pick(g.Rng, []string{"readError", "garbage", "partial", "noTargets"})
